@@ -106,7 +106,9 @@ pub trait WalletBackend<'ck, C, K> where C: NodeClient + 'ck, K: Keychain + 'ck 
             final(self).state().valid_masks == old(self).state().valid_masks,
             r matches Ok(c) ==> old(self).state().contexts.dom().contains(slate_id@) && c == old(self).state().contexts[slate_id@]
                 && old(self).state().has_keychain && old(self).state().valid_masks.contains(opt_key(keychain_mask)),
-            !old(self).state().contexts.dom().contains(slate_id@) ==> r is Err;
+            !old(self).state().contexts.dom().contains(slate_id@) ==> r is Err,
+            // A-read: a stored context is returned when the keychain is open and the token unlocks it
+            (old(self).state().contexts.dom().contains(slate_id@) && old(self).state().has_keychain && old(self).state().valid_masks.contains(opt_key(keychain_mask))) ==> r is Ok;
 
     fn tx_log_iter<'a>(&'a self) -> (r: VIter<TxLogEntry>)
         ensures enumerates_log(r@, self.state().tx_log), r@ == seq_of_log(self.state().tx_log);
